@@ -68,7 +68,7 @@ func valueChain(r *rand.Rand, x int) []v1.Transform {
 	}
 }
 
-func runComposerCase(c *kit.Ctx, name string, r *rand.Rand, st stats) {
+func runComposerCase(c sink, name string, r *rand.Rand, st stats) {
 	ctx := context.Background()
 	k := 2 + r.IntN(4)
 	w := sim.NewWorld(composerScheme, r.Uint64())
